@@ -10,7 +10,7 @@ import math
 import numpy as np
 
 from ..base import Result
-from ..gen import dom_vec
+from ..gen import dom_vec, int_vec
 from ..metrics_table import NAMES, SQRT_FORMS, T, reference
 
 ID = "C08"
@@ -30,9 +30,9 @@ BUDGET = {
     "thorough": {"cases": 2000000, "seconds": 900, "shards": 16},
 }
 REQUIRED_OBS = ["finite_checked", "symmetric_checked", "nonneg_checked", "zero_self_checked", "triangle_checked",
-                "class:identical", "class:parallel", "class:zeros", "class:dim1", "class:collinear", "class:tiny"]
+                "class:identical", "class:parallel", "class:zeros", "class:dim1", "class:collinear", "class:tiny", "class:intdtype"]
 MIN_NONTRIVIAL = 1000
-CLASSES = ["indep", "identical", "parallel", "dim1", "zeros", "collinear", "near", "tiny"]
+CLASSES = ["indep", "identical", "parallel", "dim1", "zeros", "collinear", "near", "tiny", "intdtype"]
 LENGTHS = [1, 2, 3, 5, 8, 16, 33]
 
 
@@ -52,6 +52,14 @@ def generate(rng, tier, idx):
     x = dom_vec(rng, kind, n, zeros=zeros, tiny=tiny)
     y = dom_vec(rng, kind, n, zeros=zeros, tiny=tiny)
     z = dom_vec(rng, kind, n, zeros=zeros, tiny=tiny)
+    dtype = "f64"
+    if cls == "intdtype" and kind != "Q":
+        # integer-valued vectors passed as int32 / int64 arrays, zeros included where the EPSILON shift applies
+        dtype = "i32" if rng.random() < 0.5 else "i64"
+        zok = bool(dec)
+        x, y, z = (int_vec(rng, kind, n, zok).astype(float) for _ in range(3))
+        if rng.random() < 0.3:
+            y = x.copy()
     if cls == "identical":
         y = x.copy()
     elif cls == "parallel":
@@ -67,7 +75,7 @@ def generate(rng, tier, idx):
             y = y / y.sum()
     elif cls == "near":
         y = x * (1 + 1e-9) if kind != "Q" else x.copy()
-    return {"metric": name, "cls": cls, "x": x.tolist(), "y": y.tolist(), "z": z.tolist()}
+    return {"metric": name, "cls": cls, "x": x.tolist(), "y": y.tolist(), "z": z.tolist(), "dtype": dtype}
 
 
 def check(case):
@@ -79,9 +87,11 @@ def check(case):
     fn = DISTANCES[name]
     X, Y, Z = case["x"], case["y"], case["z"]
 
+    npdt = {"i32": np.int32, "i64": np.int64}.get(case.get("dtype", "f64"), float)
+
     def d(a, b):
         try:
-            return float(fn(np.array(a, dtype=float), np.array(b, dtype=float)))
+            return float(fn(np.array(a, dtype=float).astype(npdt), np.array(b, dtype=float).astype(npdt)))
         except Exception as ex:  # an exception on an in-domain vector pair delivers no number at all
             res.violate("finite", f"C08/exception/{type(ex).__name__}", f"{name} raised {type(ex).__name__}: {str(ex)[:200]} on {a} {b}")
             return None
